@@ -58,6 +58,7 @@ class BytePipe:
         self.link = None
         self.blocked_drains = []  # futures of writers blocked in drain ('block' policy)
         self.stall_until = 0.0  # drains stall until this virtual time (scripted stall window)
+        self.on_frame = None  # RawPeer hook: called with each complete frame at write time
 
     # --- writer side --------------------------------------------------------------------
     def write(self, data):
@@ -68,6 +69,8 @@ class BytePipe:
         for f in self.decoder.feed(data):
             w.rec('wire', dir=self.name, f=f)
             self.frame_sizes.append(f['wire_len'])
+            if self.on_frame is not None:
+                self.on_frame(f)
         self.accepted += len(data)
         w.stats['bytes_' + self.name] = w.stats.get('bytes_' + self.name, 0) + len(data)
         if self.dead or self.silent:
@@ -378,6 +381,7 @@ class FakeWebSocket:
         self.silent = False
         self.stall_until = 0.0
         self.fail_send = None
+        self.on_frame = None
 
     def __aiter__(self):
         return self
@@ -402,6 +406,8 @@ class FakeWebSocket:
             f = {'type': 'UNDECODABLE', 'sid': -1, 'error': str(e), 'len': len(data), 'raw': data}
         f['wire_len'] = len(data)
         self.world.rec('wire', dir=self.name, f=f)
+        if self.on_frame is not None:
+            self.on_frame(f)
         self.sent += 1
         self.world.stats['bytes_' + self.name] = self.world.stats.get('bytes_' + self.name, 0) + len(data)
         self._push(_Msg(self._binary, data))
@@ -443,6 +449,17 @@ class FakeWebSocket:
             self.world.stats['chunks'] = self.world.stats.get('chunks', 0) + 1
         if self.outq:
             self.pump_handle = self.loop.call_at(max(now, self.outq[0][0]), self._pump_hop)
+
+    def raw_send(self, body):
+        """RawPeer: put one message on the wire from this side without going through a transport."""
+        body = bytes(body)
+        try:
+            f = refcodec.decode(body)
+        except refcodec.RefDecodeError as e:
+            f = {'type': 'UNDECODABLE', 'sid': -1, 'error': str(e), 'len': len(body), 'raw': body}
+        f['wire_len'] = len(body)
+        self.world.rec('wire', dir=self.name, f=f)
+        self._push(_Msg(self._binary, body))
 
     def inject(self, item):
         """Harness-side: deliver a raw item (message / exception / close) to this socket's reader."""
